@@ -1,6 +1,8 @@
 //! Renderer for the JAX text formats (hp.obo, phenotype.hpoa, genes_to_phenotype.txt,
 //! phenotype_to_genes.txt) and a driver for `Ontology::from_standard[_transitive]`.
-//! Only constructs that occur in JAX releases are generated.
+//! Only constructs that occur in JAX releases or that OBO 1.2 / 1.4 allows in such a file are generated (header tags
+//! in any order after `format-version`, `consider:` / `namespace:` tags, a repeated `is_a:` line, free text in values).
+//! `load` writes only the gene file the loader under test is documented to read; the other name holds a poison file.
 
 use crate::ctx::guard;
 use crate::model::{Facts, Kind};
@@ -21,7 +23,9 @@ pub enum Distractor {
     /// a `#` comment line in the middle of phenotype.hpoa
     HpoaCommentMiddle,
     DecipherRow,
-    /// gene file header variants: 0 = `ncbi_gene_id...`, 1 = `#Format...`, 2 = `hpo_id...`
+    /// gene file header variants: 0 = the column header of current releases (`ncbi_gene_id...` in
+    /// genes_to_phenotype.txt, `hpo_id...` in phenotype_to_genes.txt), 1 = the `#Format: ...` comment of older releases.
+    /// (Each file always carries its OWN header: the crate does not document that the header content is ignored.)
     GeneHeader(u8),
     /// `[Typedef]` stanza at position i among the term stanzas (0 = before all, n = after all)
     Typedef(usize),
@@ -59,6 +63,24 @@ pub enum Distractor {
     HpoaCommentLong(usize),
     /// every is_a line carries an OBO trailing modifier: `is_a: HP:0000118 {source="PMID:1"} ! name`
     IsATrailingModifier,
+    /// phenotype.hpoa and both gene files do not end with a newline after their last row
+    /// (`NoTrailingNewline` is the same for hp.obo)
+    AnnotationFilesNoTrailingNewline,
+    /// the optional columns of the gene files (frequency and disease_id in genes_to_phenotype.txt, disease_id in
+    /// phenotype_to_genes.txt) carry values that differ from row to row: `-`, `0/5`, `3/7`, `HP:0040285`, `12%`,
+    /// `OMIM:n`, `ORPHA:n`, `-`, empty
+    GeneFilledColumns,
+    /// other header lines (date, saved-by, auto-generated-by) stand between `format-version` and `data-version`
+    HeaderLinesBeforeDataVersion,
+    /// stanzas carry `namespace:` (after the name) and one or two `consider:` lines (after is_obsolete /
+    /// replaced_by), obsolete and non-obsolete stanzas alike; `consider` names other terms than `replaced_by`
+    ConsiderNamespaceTags,
+    /// an `is_a:` line occurs twice in a stanza (same parent): directly doubled in stanzas at even positions,
+    /// the first is_a line repeated after the last one in stanzas at odd positions
+    DuplicateIsA,
+    /// the text `is_a: HP:nnnnnnn ! name` occurs INSIDE the value of a `def:` and at the start of the value of a
+    /// `comment:` line; the term named there is not a parent (a value is not a tag: no link may result)
+    IsATextInValues,
 }
 
 #[derive(Clone, Debug, Default)]
@@ -83,6 +105,8 @@ pub struct Rendered {
     pub hpoa: String,
     pub genes_to_phenotype: String,
     pub phenotype_to_genes: String,
+    /// a term of the ontology (the first stanza's), used for the rows of the poison gene file written by `load`
+    pub some_term: u32,
 }
 
 fn hp(id: u32) -> String {
@@ -94,6 +118,9 @@ pub fn render(f: &Facts, o: &JaxOpts) -> Rendered {
     let mut obo = String::new();
     if !o.has(&Distractor::NoHeaderBlock) {
         obo.push_str("format-version: 1.2\n");
+        if o.has(&Distractor::HeaderLinesBeforeDataVersion) {
+            obo.push_str("date: 29:02:2024 10:15\nsaved-by: Peter Robinson\nauto-generated-by: OBO-Edit 2.3.1\n");
+        }
     }
     if !o.has(&Distractor::MissingDataVersion) && !o.has(&Distractor::NoHeaderBlock) {
         obo.push_str(&format!("data-version: hp/releases/{:04}-{:02}-{:02}\n", f.version.0, f.version.1, f.version.2));
@@ -104,13 +131,38 @@ pub fn render(f: &Facts, o: &JaxOpts) -> Rendered {
     let typedef = "[Typedef]\nid: http://purl.obolibrary.org/obo/hp#has_part\nname: has_part\nxref: BFO:0000051\nis_transitive: true";
     let order: Vec<usize> = o.stanza_order.clone().unwrap_or_else(|| (0..f.terms.len()).collect());
     let mut stanzas: Vec<String> = vec![];
-    for &i in &order {
+    // ancestors-first order of the term ids (ties in list order)
+    let mut topo: Vec<u32> = vec![];
+    while topo.len() < f.terms.len() {
+        let next = f.terms.iter().map(|x| x.id).find(|x| !topo.contains(x) && f.edges.iter().filter(|e| e.0 == *x && f.terms.iter().any(|y| y.id == e.1)).all(|e| topo.contains(&e.1)));
+        match next.or_else(|| f.terms.iter().map(|x| x.id).find(|x| !topo.contains(x))) {
+            Some(x) => topo.push(x),
+            None => break,
+        }
+    }
+    let name_of = |id: u32| -> &str { f.terms.iter().find(|x| x.id == id).map(|x| x.name.as_str()).unwrap_or("unknown") };
+    for (pos, &i) in order.iter().enumerate() {
         let t = &f.terms[i];
         let mut s = String::from("[Term]\n");
         s.push_str(&format!("id: {}\n", hp(t.id)));
         let early = o.has(&Distractor::TagsBeforeName);
+        // `is_a: ...` as TEXT inside values: names a term that stands before this one in an ancestors-first order
+        // and is not a direct parent (a link to it could not close a cycle); an absent id if there is none
+        let is_a_text: Option<String> = if o.has(&Distractor::IsATextInValues) {
+            let target = topo.iter().take_while(|x| **x != t.id).copied().find(|x| !f.edges.iter().any(|e| e.0 == t.id && e.1 == *x)).unwrap_or(9_999_990);
+            Some(format!("is_a: {} ! {}", hp(target), name_of(target)))
+        } else {
+            None
+        };
+        let is_a_values = |s: &mut String, txt: &str| {
+            s.push_str(&format!("def: \"Formerly classified as {txt}, see the tracker.\" [HPO:probinson]\n"));
+            s.push_str(&format!("comment: {txt}\n"));
+        };
         if early {
-            s.push_str("def: \"Defined before it is named: really.\" [HPO:probinson]\ncomment: name: not this one\n");
+            match &is_a_text {
+                Some(txt) => is_a_values(&mut s, txt),
+                None => s.push_str("def: \"Defined before it is named: really.\" [HPO:probinson]\ncomment: name: not this one\n"),
+            }
             if t.obsolete {
                 s.push_str("is_obsolete: true\n");
             }
@@ -119,25 +171,45 @@ pub fn render(f: &Facts, o: &JaxOpts) -> Rendered {
             }
         }
         s.push_str(&format!("name: {}\n", t.name));
+        if o.has(&Distractor::ConsiderNamespaceTags) {
+            s.push_str("namespace: human_phenotype\n");
+        }
         if o.has(&Distractor::ExtraTags) {
             s.push_str(&format!("alt_id: {}\n", hp(9_000_000 + t.id % 1000)));
-            s.push_str("def: \"A definition: with a colon, and HP:0000001 inside.\" [HPO:probinson, PMID:12345]\n");
-            s.push_str("comment: Note: name: something else\n");
+            match (&is_a_text, early) {
+                (Some(txt), false) => is_a_values(&mut s, txt),
+                _ => {
+                    s.push_str("def: \"A definition: with a colon, and HP:0000001 inside.\" [HPO:probinson, PMID:12345]\n");
+                    s.push_str("comment: Note: name: something else\n");
+                }
+            }
             s.push_str("subset: hposlim_core\n");
             s.push_str("synonym: \"Other name: variant\" EXACT layperson [ORCID:0000-0001-5889-4463]\n");
             s.push_str("xref: UMLS:C0000001\n");
             s.push_str("created_by: doelkens\ncreation_date: 2012-04-02T02:19:54Z\n");
+        } else if let (Some(txt), false) = (&is_a_text, early) {
+            is_a_values(&mut s, txt);
         }
-        for &(c, p) in f.edges.iter().filter(|e| e.0 == t.id) {
-            let pname = f.terms.iter().find(|x| x.id == p).map(|x| x.name.as_str()).unwrap_or("unknown");
-            let _ = c;
+        let is_a_line = |p: u32| -> String {
             if o.has(&Distractor::IsATrailingModifier) {
-                s.push_str(&format!("is_a: {} {{source=\"PMID:{}\"}} ! {}\n", hp(p), 1000 + p % 97, pname));
+                format!("is_a: {} {{source=\"PMID:{}\"}} ! {}\n", hp(p), 1000 + p % 97, name_of(p))
             } else {
-                s.push_str(&format!("is_a: {} ! {}\n", hp(p), pname));
+                format!("is_a: {} ! {}\n", hp(p), name_of(p))
+            }
+        };
+        let parents: Vec<u32> = f.edges.iter().filter(|e| e.0 == t.id).map(|e| e.1).collect();
+        for &p in &parents {
+            s.push_str(&is_a_line(p));
+            if o.has(&Distractor::DuplicateIsA) && pos % 2 == 0 {
+                s.push_str(&is_a_line(p));
             }
             if o.has(&Distractor::TagsBetweenIsA) {
                 s.push_str("xref: SNOMEDCT_US:123456\n");
+            }
+        }
+        if o.has(&Distractor::DuplicateIsA) && pos % 2 == 1 {
+            if let Some(&p) = parents.first() {
+                s.push_str(&is_a_line(p));
             }
         }
         if t.obsolete {
@@ -150,6 +222,17 @@ pub fn render(f: &Facts, o: &JaxOpts) -> Rendered {
         if let Some(r) = t.replacement {
             if !early {
                 s.push_str(&format!("replaced_by: {}\n", hp(r)));
+            }
+        }
+        if o.has(&Distractor::ConsiderNamespaceTags) {
+            // terms to consider: not the term itself, not its stated replacement; one line, at every second
+            // stanza two lines (the second one may name a term that is absent from the file, as in releases
+            // where the term to consider belongs to another ontology version)
+            let cands: Vec<u32> = f.terms.iter().map(|x| x.id).filter(|x| *x != t.id && Some(*x) != t.replacement).collect();
+            let pick = |k: usize| -> u32 { if cands.is_empty() { 12_345 } else { cands[k % cands.len()] } };
+            s.push_str(&format!("consider: {}\n", hp(pick(pos))));
+            if pos % 2 == 1 {
+                s.push_str(&format!("consider: {}\n", hp(if cands.len() >= 2 { pick(pos + 1) } else { 12_345 })));
             }
         }
         if o.has(&Distractor::ExtraTags) {
@@ -199,7 +282,10 @@ pub fn render(f: &Facts, o: &JaxOpts) -> Rendered {
         if minimal {
             format!("{db}:{id}\t{name}\t{qual}\t{}\n", hp(term))
         } else if filled {
-            let freq = ["0/12", "1/1", "HP:0040283", "33%", "0/1", "7/12", "0%", ""][k % 8];
+            // the rotation starts at a position that depends on the fact set, so that small files reach every value
+            let k = k + f.anns.len();
+            // HP:0040285 = "Excluded", HP:0040280 = "Obligate", 0/0 and 0/n: none of them is a NOT qualifier
+            let freq = ["0/12", "HP:0040285", "1/1", "HP:0040283", "0/0", "33%", "0/1", "HP:0040280", "7/12", "0%", "1/2", ""][k % 12];
             let evidence = ["IEA", "PCS", "TAS"][k % 3];
             let onset = ["HP:0003577", "", "HP:0003593"][k % 3];
             let sex = ["MALE", "", "FEMALE", "NOT"][k % 4];
@@ -285,19 +371,21 @@ pub fn render(f: &Facts, o: &JaxOpts) -> Rendered {
             g2p.push_str("#Format: entrez-gene-id<tab>entrez-gene-symbol<tab>HPO-Term-ID<tab>HPO-Term-Name<tab>Frequency-Raw<tab>Frequency-HPO<tab>Additional Info from G-D source<tab>G-D source<tab>disease-ID for link\n");
             p2g.push_str("#Format: HPO-id<tab>HPO label<tab>entrez-gene-id<tab>entrez-gene-symbol<tab>Additional Info from G-D source<tab>G-D source<tab>disease-ID for link\n");
         }
-        2 => {
-            g2p.push_str("hpo_id\thpo_name\tncbi_gene_id\tgene_symbol\tdisease_id\n");
-            p2g.push_str("ncbi_gene_id\tgene_symbol\thpo_id\thpo_name\tfrequency\tdisease_id\n");
-        }
         _ => {
             g2p.push_str("ncbi_gene_id\tgene_symbol\thpo_id\thpo_name\tfrequency\tdisease_id\n");
             p2g.push_str("hpo_id\thpo_name\tncbi_gene_id\tgene_symbol\tdisease_id\n");
         }
     }
-    for &i in &gorder {
+    for (k, &i) in gorder.iter().enumerate() {
         let a = genes[i];
         let t = a.term.unwrap();
-        if o.has(&Distractor::GeneMinimalColumns) {
+        if o.has(&Distractor::GeneFilledColumns) && !o.has(&Distractor::GeneMinimalColumns) {
+            let k = k + f.anns.len();
+            let freq = ["-", "HP:0040285", "0/5", "3/7", "12%", "HP:0040283", "1/1", ""][k % 8];
+            let disease = ["OMIM:243400", "ORPHA:432", "-", "OMIM:1", "ORPHA:99999", ""][k % 6];
+            g2p.push_str(&format!("{}\t{}\t{}\t{}\t{freq}\t{disease}{}\n", a.id, a.name, hp(t), tname(t), trailing));
+            p2g.push_str(&format!("{}\t{}\t{}\t{}\t{disease}{}\n", hp(t), tname(t), a.id, a.name, trailing));
+        } else if o.has(&Distractor::GeneMinimalColumns) {
             g2p.push_str(&format!("{}\t{}\t{}\n", a.id, a.name, hp(t)));
             p2g.push_str(&format!("{}\t{}\t{}\t{}\n", hp(t), tname(t), a.id, a.name));
         } else {
@@ -305,7 +393,52 @@ pub fn render(f: &Facts, o: &JaxOpts) -> Rendered {
             p2g.push_str(&format!("{}\t{}\t{}\t{}\tOMIM:243400{}\n", hp(t), tname(t), a.id, a.name, trailing));
         }
     }
-    Rendered { obo, hpoa, genes_to_phenotype: g2p, phenotype_to_genes: p2g }
+    if o.has(&Distractor::AnnotationFilesNoTrailingNewline) {
+        for file in [&mut hpoa, &mut g2p, &mut p2g] {
+            if file.ends_with('\n') {
+                file.pop();
+            }
+        }
+    }
+    Rendered { obo, hpoa, genes_to_phenotype: g2p, phenotype_to_genes: p2g, some_term }
+}
+
+/// The same facts with two records of `kind` carrying the SAME name (gene symbol / disease name): the second
+/// record of that kind that has rows takes the name of the first one. `adjacent`: the rows of the two records
+/// directly follow each other in the file (first all rows of the one, then all rows of the other); otherwise a row
+/// of a third record (`Spacer`, id 4 242 001, added to the facts) stands between them. The rows of the two
+/// records come first among the annotations. None if fewer than two records of the kind have rows.
+/// Model and files are both derived from the returned facts.
+pub fn with_shared_name(f: &Facts, kind: Kind, adjacent: bool) -> Option<Facts> {
+    let mut ids: Vec<u32> = vec![];
+    for a in f.anns.iter().filter(|a| a.kind == kind && a.term.is_some()) {
+        if !ids.contains(&a.id) {
+            ids.push(a.id);
+        }
+    }
+    if ids.len() < 2 {
+        return None;
+    }
+    let (a, b) = (ids[0], ids[1]);
+    let name = f.anns.iter().find(|x| x.kind == kind && x.id == a)?.name.clone();
+    let mut g = f.clone();
+    for x in g.anns.iter_mut() {
+        if x.kind == kind && x.id == b {
+            x.name = name.clone();
+        }
+    }
+    let is = |x: &crate::model::AnnFact, id: u32| x.kind == kind && x.id == id && x.term.is_some();
+    let rows_a: Vec<crate::model::AnnFact> = g.anns.iter().filter(|x| is(x, a)).cloned().collect();
+    let rows_b: Vec<crate::model::AnnFact> = g.anns.iter().filter(|x| is(x, b)).cloned().collect();
+    let rest: Vec<crate::model::AnnFact> = g.anns.iter().filter(|x| !is(x, a) && !is(x, b)).cloned().collect();
+    let mut anns = rows_a.clone();
+    if !adjacent {
+        anns.push(Facts::ann(kind, 4_242_001, "Spacer", rows_a[0].term));
+    }
+    anns.extend(rows_b);
+    anns.extend(rest);
+    g.anns = anns;
+    Some(g)
 }
 
 /// Per-process scratch directory for generated JAX folders (removed by `cleanup`).
@@ -322,14 +455,41 @@ pub fn cleanup() {
     let _ = std::fs::remove_dir_all(d);
 }
 
+/// What stands under the name of the gene file the loader under test is NOT documented to read
+/// (`from_standard` reads genes_to_phenotype.txt, `from_standard_transitive` reads phenotype_to_genes.txt).
+#[derive(Clone, Copy, Debug, PartialEq, Eq)]
+pub enum OtherGeneFile {
+    /// a well-formed file of that name (own header, own column order) whose only row links a gene
+    /// `999999 POISON` to a term of the ontology: reading it in any way changes the result
+    Poison,
+    /// no file of that name
+    Absent,
+}
+
 /// Write the rendered files and load them through the real loader.
-/// Ok(Ok(ont)) / Ok(Err(error)) / Err(panic)
+/// Only the gene file the loader is documented to read is written from the rendering; the other name holds a
+/// poison file. Ok(Ok(ont)) / Ok(Err(error)) / Err(panic)
 pub fn load(r: &Rendered, transitive: bool) -> Result<Result<Ontology, String>, String> {
+    load_with(r, transitive, OtherGeneFile::Poison)
+}
+
+pub fn load_with(r: &Rendered, transitive: bool, other: OtherGeneFile) -> Result<Result<Ontology, String>, String> {
     let dir = scratch();
     let w = |name: &str, body: &str| std::fs::write(format!("{dir}/{name}"), body).expect("cannot write scratch file");
     w("hp.obo", &r.obo);
     w("phenotype.hpoa", &r.hpoa);
-    w("genes_to_phenotype.txt", &r.genes_to_phenotype);
-    w("phenotype_to_genes.txt", &r.phenotype_to_genes);
+    let t = hp(r.some_term);
+    let (read_name, read_body, other_name, poison) = if transitive {
+        ("phenotype_to_genes.txt", &r.phenotype_to_genes, "genes_to_phenotype.txt", format!("ncbi_gene_id\tgene_symbol\thpo_id\thpo_name\tfrequency\tdisease_id\n999999\tPOISON\t{t}\tpoison\t-\tOMIM:999999\n"))
+    } else {
+        ("genes_to_phenotype.txt", &r.genes_to_phenotype, "phenotype_to_genes.txt", format!("hpo_id\thpo_name\tncbi_gene_id\tgene_symbol\tdisease_id\n{t}\tpoison\t999999\tPOISON\tOMIM:999999\n"))
+    };
+    w(read_name, read_body);
+    match other {
+        OtherGeneFile::Poison => w(other_name, &poison),
+        OtherGeneFile::Absent => {
+            let _ = std::fs::remove_file(format!("{dir}/{other_name}"));
+        }
+    }
     guard(|| if transitive { Ontology::from_standard_transitive(&dir) } else { Ontology::from_standard(&dir) }.map_err(|e| e.to_string()))
 }
